@@ -236,8 +236,21 @@ impl Monitor for C10 {
         };
         let cx = *rng.pick(&[Class::Walk, Class::Uniform, Class::SmallInt, Class::Spike, Class::Sine, Class::Blocks, Class::ZeroSum]);
         let cy = *rng.pick(&[Class::Walk, Class::Uniform, Class::SmallInt, Class::Alternating, Class::Step, Class::Zero]);
-        let xs = gen::gen(cx, n, len, &mut rng);
+        let mut xs = gen::gen(cx, n, len, &mut rng);
         let mut ys = gen::gen(cy, n, len, &mut rng);
+        if rng.chance(1, 6) {
+            // x hovers within 2^-10 of a level and now and then jumps by 2^17..2^24 (dyadic values): a
+            // jump a hundred million times the stream's own recent range, next to an ordinary y.  A
+            // "glitch guard" relative to the recent range acts on x alone, not on a x + b y.
+            let mut lvl = 1.0f64;
+            for x in xs.iter_mut() {
+                if rng.chance(1, 12) {
+                    lvl += 2f64.powi(rng.range(17, 24) as i32) * if rng.coin() { 1.0 } else { -1.0 };
+                }
+                *x = lvl + rng.range(-4, 4) as f64 / 4096.0;
+            }
+            out.count("x_streams_that_hover_and_jump", 1);
+        }
         let mut a = *rng.pick(&[1.0, -1.0, 2.0, 0.5, -3.0, 0.0, 1.25, 7.0]);
         let mut b = *rng.pick(&[1.0, -1.0, 2.0, -0.5, 0.0, 3.0, 0.75]);
         if !exact && rep % 5 == 1 {
